@@ -41,6 +41,23 @@ class IntervalWalker:
         o = self.bi.trace(operand, through_clone=True)
         return self.is_input(o)
 
+    def _try_from_switch(self, bb, t):
+        """the switch at bb decides on the discriminant of `<T as TryFrom<_>>::try_from(input)`: (lo, hi) of T"""
+        if not t.discr.place.is_local():
+            return None
+        for s in self.body.blocks[bb].stmts:
+            if s.k == "assign" and s.lhs.is_local() and s.lhs.local == t.discr.place.local and s.rv.k == "discr":
+                o = self.bi.trace(s.rv.place)
+                if o.kind == "call" and not o.path:
+                    c = self.bi.call_at(o.data)
+                    if c.callee is not None and c.callee.path.split("::")[-1] in ("try_from", "try_into") and c.args and self._is_in(c.args[0]):
+                        ty = self.body.local_ty(c.dest.local) if c.dest is not None and c.dest.is_local() else ""
+                        import re
+                        m = re.match(r"^std::result::Result<([iu](?:8|16|32|64|128|size)),", ty or "")
+                        if m:
+                            return INT_RANGES[m.group(1)]
+        return None
+
     def _cond(self, bb, local):
         """if bool `local` is `input <op> const` (single def in this block or a dominating one): (op, c)"""
         ds = self.bi.defs.get(local, [])
@@ -114,6 +131,22 @@ class IntervalWalker:
                 out.append(Path(lo, hi, trail, bb, excl))
                 continue
             if t.k == "switch" and t.discr is not None and t.discr.place is not None:
+                tf = self._try_from_switch(bb, t)
+                if tf is not None:
+                    # `match uN::try_from(input) { Ok(v) => .., Err(_) => .. }`: Ok <=> the input fits the target type
+                    tlo, thi = tf
+                    arms = dict(t.arms)
+                    okb, errb = arms.get(0), arms.get(1, t.otherwise)
+                    if okb is None or errb is None or (lo < tlo and hi > thi):
+                        self.undecided_reason = "try_from switch shape at bb%d" % bb
+                        return None
+                    for target, l2, h2 in ((okb, max(lo, tlo), min(hi, thi)),
+                                           (errb, lo, min(hi, tlo - 1)) if lo < tlo else (errb, max(lo, thi + 1), hi)):
+                        if target in trail:
+                            self.undecided_reason = "loop at bb%d" % target
+                            return None
+                        stack.append((target, l2, h2, excl, trail + (target,)))
+                    continue
                 cond = self._cond(bb, t.discr.place.local) if t.discr.place.is_local() else None
                 if cond is not None:
                     op, c = cond
